@@ -21,7 +21,8 @@
 //	muts  ';'-separated mutations of (tc, info, sk):  f<i>.<xx> xor byte i,
 //	      t<n> truncate to n, a<hex> append, P<hex> prepend, d<n> drop n leading
 //	      bytes, r<off>.<hex> overwrite at off, i<hex> other info, k<hex> other
-//	      private key, z empty ciphertext
+//	      private key, n<hex> the negated private key n-d (NIST curves), z empty
+//	      ciphertext
 //
 // Observation (both sides print the same canonical string):
 //
@@ -103,7 +104,7 @@ func applyMut(spec string, ct, info, sk []byte) ([]byte, []byte, []byte) {
 		}
 	case 'i':
 		info = hx.UH(arg)
-	case 'k':
+	case 'k', 'n':
 		sk = hx.UH(arg)
 	case 'z':
 		ct = []byte{}
@@ -186,6 +187,7 @@ func check(in, obs string) string {
 		return fmt.Sprintf("round trip of a fresh encryption under the tape: %s (%s)", short(fd), f[2])
 	}
 	rs := strings.Split(m["mu"], ",")
+	known := ""
 	for i, sp := range muts {
 		if i >= len(rs) {
 			return "mutation results missing"
@@ -193,13 +195,22 @@ func check(in, obs string) string {
 		c2, i2, k2 := applyMut(sp, tc, info, sk)
 		changed := !bytes.Equal(c2, tc) || !bytes.Equal(i2, info) || !bytes.Equal(k2, sk)
 		if changed && rs[i] != "err" {
+			// ECIES-AEAD-HKDF under the negated private key n-d (and nothing else changed):
+			// the DEM key is HKDF(kem || x(d*P)) and x((n-d)*P) = x(d*P), the recipient
+			// public key is not bound - recorded finding, reported under its marker.  Any
+			// other accepted foreign key, or another plaintext, is a plain violation.
+			if f[1] == "E" && sp[0] == 'n' && rs[i] == want && bytes.Equal(c2, tc) && bytes.Equal(i2, info) &&
+				bytes.Equal(k2, negScalar(strings.Split(f[2], ".")[0], sk)) {
+				known = fmt.Sprintf("ecies negated private key accepted: Decrypt with n-d returns the plaintext (%s)", f[2])
+				continue
+			}
 			return fmt.Sprintf("mutation %c accepted: Decrypt = %s (%s, mutation %s)", sp[0], short(rs[i]), f[2], short(sp))
 		}
 		if !changed && rs[i] != want {
 			return fmt.Sprintf("identity mutation not accepted (%s)", f[2])
 		}
 	}
-	return ""
+	return known
 }
 
 func short(s string) string {
